@@ -993,6 +993,53 @@ pub fn part_c12(run: &mut Run, tier: &str) {
     let mut fail = |run: &mut Run, clause: &str, msg: String| {
         run.report(None, clause, &msg, json!({"engine": "dem", "config": wire::NAME, "case": msg}));
     };
+    // ---- well-formed but hollow inputs: an encapsulation without any right-encapsulation (and
+    // one without traps), inside a PKE ciphertext and inside a header; on an instance of its own,
+    // which must keep working afterwards
+    {
+        let inst = Covercrypt::default();
+        let (xenc, body) = PkeAc::<KL, E>::encrypt(&inst, &mpk0, &p("A::x"), b"plaintext").expect("encrypt");
+        let (_, hdr) = EncryptedHeader::generate(&inst, &mpk0, &p("A::x"), Some(b"metadata"), Some(b"a")).expect("header");
+        let w = wire::WEnc::decode(&ser(&xenc)).expect("decode");
+        let wh = wire::WHeader::decode(&ser(&hdr)).expect("decode header");
+        let mut hollow: Vec<(&str, wire::WEnc, wire::WHeader)> = vec![];
+        for (what, no_items, no_traps) in [("without right-encapsulations", true, false), ("without traps", false, true), ("without traps and right-encapsulations", true, true)] {
+            let mut e = w.clone();
+            let mut h = wire::WHeader { enc: wh.enc.clone(), md: wh.md.clone(), fields: vec![] };
+            if no_items {
+                e.items.clear();
+                h.enc.items.clear();
+            }
+            if no_traps {
+                e.traps.clear();
+                h.enc.traps.clear();
+            }
+            hollow.push((what, e, h));
+        }
+        for (what, e, h) in hollow {
+            for (kn, k) in [("authorised", &k_auth), ("unauthorised", &k_unauth)] {
+                cases += 2;
+                if let Ok(x) = XEnc::deserialize(&e.encode()) {
+                    match catch_unwind(AssertUnwindSafe(|| PkeAc::<KL, E>::decrypt(&inst, k, &(x, body.clone())))) {
+                        Err(_) => fail(run, "C12.d", format!("PKE ciphertext whose encapsulation is {what}, {kn} key: panic")),
+                        Ok(Ok(Some(_))) => fail(run, "C12.e", format!("PKE ciphertext whose encapsulation is {what}, {kn} key: decrypts")),
+                        Ok(_) => nontrivial += 1,
+                    }
+                }
+                if let Ok(x) = EncryptedHeader::deserialize(&h.encode()) {
+                    match catch_unwind(AssertUnwindSafe(|| x.decrypt(&inst, k, Some(b"a")))) {
+                        Err(_) => fail(run, "C12.d", format!("header whose encapsulation is {what}, {kn} key: panic")),
+                        Ok(Ok(Some(_))) => fail(run, "C12.e", format!("header whose encapsulation is {what}, {kn} key: decrypts")),
+                        Ok(_) => nontrivial += 1,
+                    }
+                }
+            }
+        }
+        match catch_unwind(AssertUnwindSafe(|| PkeAc::<KL, E>::decrypt(&inst, &k_auth, &(xenc, body.clone())))) {
+            Ok(Ok(Some(ptx))) if &**ptx == b"plaintext" => {}
+            _ => fail(run, "C12.a", "after hollow inputs were refused, the same instance no longer decrypts a genuine ciphertext".to_string()),
+        }
+    }
     // ---- PKE
     let mut lens: Vec<usize> = if thorough { (0..=48).collect() } else { (0..=20).collect() };
     lens.extend([31, 32, 33, 63, 64, 65, 255, 256, 65_535, 65_536, 65_537]);
@@ -1075,6 +1122,31 @@ pub fn part_c12(run: &mut Run, tier: &str) {
     if thorough {
         mds.push(Some(vec![4u8; 1000]));
     }
+    // every metadata length over the one- / two- / three-byte boundaries of the length prefix of
+    // the encrypted metadata (28 bytes longer than the metadata), through the wire form
+    {
+        let mut lens: Vec<usize> = (0..=if thorough { 1100 } else { 300 }).collect();
+        lens.extend(16_384 - 28 - if thorough { 200 } else { 40 }..=16_384 - 28 + if thorough { 200 } else { 110 });
+        if thorough {
+            lens.extend(2_097_152 - 28 - 2..=2_097_152 - 28 + 2);
+        }
+        for n in lens {
+            let md: Vec<u8> = (0..n).map(|i| (i % 251) as u8).collect();
+            cases += 1;
+            let Ok((secret, hdr)) = EncryptedHeader::generate(cc, &mpk0, &p("A::x"), Some(&md), Some(b"a")) else {
+                fail(run, "C12.a", format!("EncryptedHeader::generate with {n}-byte metadata failed"));
+                continue;
+            };
+            let b = ser(&hdr);
+            match catch_unwind(AssertUnwindSafe(|| EncryptedHeader::deserialize(&b).and_then(|h| h.decrypt(cc, &k_auth, Some(b"a"))))) {
+                Ok(Ok(Some(c))) if c.secret.to_vec() == secret.to_vec() && c.metadata.clone().unwrap_or_default() == md => nontrivial += 1,
+                Ok(Ok(Some(_))) => fail(run, "C12.a", format!("header with {n}-byte metadata, through its wire form: secret or metadata differ")),
+                Ok(Ok(None)) => fail(run, "C12.a", format!("header with {n}-byte metadata, through its wire form: 'not authorised' for the authorised key")),
+                Ok(Err(e)) => fail(run, "C12.a", format!("header with {n}-byte metadata, through its wire form: Err({e})")),
+                Err(_) => fail(run, "C12.d", format!("header with {n}-byte metadata, through its wire form: panic")),
+            }
+        }
+    }
     let ads: [Option<&[u8]>; 4] = [None, Some(b""), Some(b"a"), Some(&[0x42u8; 32])];
     let same = |a: Option<&[u8]>, b: Option<&[u8]>| a.unwrap_or(&[]) == b.unwrap_or(&[]);
     let mut known_ad = 0u64;
@@ -1088,7 +1160,13 @@ pub fn part_c12(run: &mut Run, tier: &str) {
                 continue;
             };
             // wire form round-trip is part of the statement (absent == empty)
-            let hdr = EncryptedHeader::deserialize(&ser(&hdr)).unwrap_or(hdr);
+            let hdr = match EncryptedHeader::deserialize(&ser(&hdr)) {
+                Ok(h) => h,
+                Err(e) => {
+                    fail(run, "C12.a", format!("header md={:?} ad_gen={:?}: its own serialisation is rejected by deserialize ({e})", md.as_ref().map(Vec::len), ad_gen.map(<[u8]>::len)));
+                    hdr
+                }
+            };
             for ad_dec in ads {
                 for (kn, k, want) in [("authorised", &k_auth, true), ("authorised through an older revision", &k_old, true), ("unauthorised", &k_unauth, false)] {
                     cases += 1;
